@@ -93,8 +93,8 @@ def generate(seed: int, tier: str = "quick") -> Dict[str, Any]:
     if cfg["pre"] == "same":
         cfg["pre"] = runners[0]
     # schedule policy (per run, not per workload)
-    kind = rs.choice(["pct", "pct", "pct", "random", "random", "hot", "hot", "roundrobin",
-                      "focus", "focus", "focus"])
+    kind = rs.choice(["pct", "pct", "pct", "random", "random", "hot", "hot", "hot", "roundrobin",
+                      "focus", "focus", "focus", "focus"])
     pol: Dict[str, Any] = {"kind": kind, "seed": kit.H(seed, "policy")}
     if kind == "pct":
         pol["depth"] = rs.choice([1, 2, 2, 3, 3])
@@ -284,11 +284,19 @@ def execute(trace: Dict[str, Any]) -> Dict[str, Any]:
         # the focus function is chosen among the functions touching shared state (sim/hotness.py)
         # that at least two of the threads actually execute when run alone
         count: Dict[str, int] = {}
+        lines: Dict[str, int] = {}
         for a in alone.values():
-            for q in a["hot"]:
+            for q, n_lines in a["hot"].items():
                 count[q] = count.get(q, 0) + 1
+                lines[q] = lines.get(q, 0) + n_lines
         cands = sorted(q for q, n in count.items() if n >= 2) or sorted(count) or ["<module>"]
-        policy = dict(policy, focus=cands[int(policy["focus"].split(":")[1]) % len(cands)])
+        # rarely executed shared-state code gets the least coverage from the uniform policies:
+        # weight a candidate by 1/sqrt(lines it executes), deterministically from the seed
+        import random as _random
+
+        pick = _random.Random(int(policy["focus"].split(":")[1]))
+        weights = [1.0 / max(1.0, lines.get(q, 1)) ** 0.5 for q in cands]
+        policy = dict(policy, focus=pick.choices(cands, weights)[0])
     res = run_threads(threads, policy, pre, trace_lark, k, cap)
     violations: List[Dict[str, Any]] = []
     stats: Dict[str, int] = {}
